@@ -47,6 +47,46 @@ def contract(prop, cid, targets=(), level="S", structures=None, max_paths=400, n
     return deco
 
 
+# functions specified as functions of their arguments (read-only on their inputs, no dependence on earlier calls): probed twice in the bounded native layer
+REPEATABLE = set()
+
+
+def repeatable(*targets):
+    for t in targets:
+        REPEATABLE.add(tuple(t))
+
+
+def _scramble(x, depth=2):
+    """consume the containers of a returned value in place (what a caller is allowed to do with what it was handed)"""
+    try:
+        if isinstance(x, (list, set, dict)):
+            if depth > 0:
+                for e in (list(x.values()) if isinstance(x, dict) else list(x)):
+                    _scramble(e, depth - 1)
+            x.clear()
+        elif isinstance(x, tuple) and depth > 0:
+            for e in x:
+                _scramble(e, depth - 1)
+        elif isinstance(x, np.ndarray) and x.dtype != object and x.flags.writeable:
+            x[...] = 0
+    except Exception:
+        pass
+
+
+def _close(a, b, tol=1e-9):
+    """structural equality of snapshots up to a float tolerance"""
+    if isinstance(a, (int, float, complex)) and isinstance(b, (int, float, complex)) and not isinstance(a, bool):
+        return abs(complex(a) - complex(b)) <= tol
+    if isinstance(a, tuple) and isinstance(b, tuple):
+        return len(a) == len(b) and all(_close(x, y, tol) for x, y in zip(a, b))
+    if isinstance(a, bytes) and isinstance(b, bytes) and len(a) == len(b) and len(a) % 8 == 0:
+        try:
+            return bool(np.allclose(np.frombuffer(a, dtype=np.float64), np.frombuffer(b, dtype=np.float64), atol=tol, rtol=0, equal_nan=True))
+        except Exception:
+            return a == b
+    return a == b
+
+
 class NativeCaller:
     """replay / bounded mode: resolves and calls the real function natively"""
 
@@ -106,6 +146,8 @@ class Harness:
 
     # calling the real code
     def call(self, relfile, qualname, *args, **kwargs):
+        if not self.symbolic and (relfile, qualname) in REPEATABLE and not getattr(self, "_in_repeat", False):
+            self._repeat_probe(relfile, qualname, args, kwargs)
         try:
             return self.I.call(relfile, qualname, *args, **kwargs)
         except _INTERNAL:
@@ -113,6 +155,30 @@ class Harness:
         except Exception as e:
             e._from_target = True     # raised by the code under contract (not by the harness itself)
             raise
+
+    def _repeat_probe(self, relfile, qualname, args, kwargs):
+        """bounded native layer, for functions that are specified as functions of their arguments (REPEATABLE): call once, snapshot the result, SCRAMBLE the containers the
+        caller was handed (a caller may consume them), then let the real call follow; its result must equal the first one - results are not aliased with hidden state, and
+        nothing the first call left behind changes the second"""
+        self._in_repeat = True
+        try:
+            try:
+                r0 = self.I.call(relfile, qualname, *args, **kwargs)
+            except Exception:
+                return          # exceptional behaviour is judged by the contract itself on the real call
+            s0 = snapshot(r0)
+            _scramble(r0)
+            try:
+                r1 = self.I.call(relfile, qualname, *args, **kwargs)
+            except Exception as e:
+                self.ctx.check(f"{self.cid}::repeatable: {qualname} raises on a second identical call", False, detail=f"{type(e).__name__}: {e}")
+                return
+            same = snapshot(r1) == s0 or _close(snapshot(r1), s0)
+            self.ctx.check(f"{self.cid}::repeatable: {qualname} returns the same value on a second identical call (after the caller consumed the first result)", same,
+                           detail="" if same else f"{str(s0)[:160]} vs {str(snapshot(r1))[:160]}")
+            _scramble(r1)
+        finally:
+            self._in_repeat = False
 
     def getattr(self, obj, name):
         try:
